@@ -8,10 +8,11 @@ CONSTANTS
   Ops = {"RoaringSet", "RoaringClear", "Recalc"}
   Inits = "empty"
   BRows = {1, 2}
-  BSets = {{1}, {2, 3}, {1, 2, 3}}
+  BSets = {{1}, {1, 2, 3}}
   MaxRect = 1
   BIds = "whole"
   Thrs = {3, 5}
+  TopNs = {0, 1, 2, 3}
   RecalcWeight = 1
   Rand = FALSE
   Depth = 4
